@@ -76,4 +76,10 @@ PROPS = {
             R("h23", "c18", "TestC18_Requests", (8000, 8), (300000, 16, 3000)),
         ],
     },
+    "C05": {
+        "level": "exploration",
+        "units": [
+            R("h23", "c05", "TestC05_SignVerify", (6000, 8), (150000, 16, 3000)),
+        ],
+    },
 }
